@@ -8,7 +8,7 @@ import warnings
 
 from . import frontend, kinds, contract, calls
 from .values import *      # noqa
-from .symex import St, new_ref, NAN, INF, Engine
+from .symex import OutOfSubset, St, new_ref, NAN, INF, Engine
 
 
 def import_repo():
@@ -466,6 +466,8 @@ def crosscheck(qual, seed, n, registry):
                 want = ('raise', type(ex).__name__)
         try:
             got = concrete_run(c.target, inp, registry)
+        except OutOfSubset:
+            continue        # the concrete interpreter has no answer for this input (e.g. a library model without a concrete meaning): not a mismatch
         except Exception as ex:
             got = ('engine-error', '%s: %s' % (type(ex).__name__, str(ex)[:120]))
         cases += 1
